@@ -96,8 +96,8 @@ def job(args):
     out = {"script": name, "props": desc["props"], "paths": S.paths, "path_ends": S.path_ends, "wall": S.wall,
            "error": S.error, "dropped": S.dropped, "vacuity": S.vacuity,
            "results": [res_dict(r, S.label) for r in S.results], "counterexamples": []}
-    failed = [r for r in out["results"] if r["status"] in ("failed", "unknown") and not
-              (r["backend"].startswith("known-finding"))]
+    # clauses covered by a recorded known finding are decided by replaying the recorded witness, not by a new search
+    failed = [r for r in out["results"] if r["status"] in ("failed", "unknown") and not r.get("known_id")]
     if failed and S.error is None:
         sizes = range(1, 5) if tier == "quick" else range(1, 7)
         if not getattr(S, "used_length", False):
